@@ -4,6 +4,23 @@ import json, os
 HERE = os.path.dirname(os.path.dirname(os.path.abspath(__file__)))
 
 CLAIMS = {
+    "C07": ("effect analysis of randomness sources over the per-class call graph + typed-sink and seeding-dominance rules (ast)",
+            "Static effect analysis: for each of the 84 optimizers every function reachable from optimize() is scanned and "
+            "every external reference classified against a randomness source table; np.random.seed(task.seed) must be the "
+            "only seeding call and precede every hook; Task.seed must be int-typed; no draw in constructors, module/class "
+            "bodies or defaults. Decides `no source of randomness escapes the seed` for all inputs in serial mode.",
+            "Trusts numpy legacy RNG determinism, a deterministic user objective, CPython int-set / dict iteration order; "
+            "closed-world guard R0.",
+            "DESIGN.md 4/C07"),
+    "C09": ("who-may-write analysis with alias tracking and parameter-write summaries (ast)",
+            "Static who-may-write analysis over all 500+ functions of optimizer classes: no store, augmented store, delete, "
+            "setattr or mutating call may reach a value rooted at self._config / self._task / the task parameter (local "
+            "aliases, closure variables, loop variables, views, alias fields followed); such values are not passed to callees "
+            "whose parameter-write summary writes them; no self-writing model method is reachable from optimize(). Holds "
+            "for all inputs, configurations and modes.",
+            "Trusts numpy/pydantic freshness summaries (call results are fresh unless listed as views); the user objective "
+            "does not mutate the task; closed-world guard R0.",
+            "DESIGN.md 4/C09"),
     # id: (technique, level text, level note, design ref)
     "C05": ("who-may-call closure + reaching-definition check over the parsed package (ast)",
             "Static who-may-call closure: every reference to objective_function / solve / _fcn in all parsed modules is "
